@@ -178,7 +178,12 @@ func runC06(c *fw.Ctx) {
 				res.Count("immediate-revert")
 				rp := map[string]any{"mode": mode, "seed": seed, "height": s.Height(), "schedule_step": "immediate", "corner": rec.corner}
 				tipBefore := s.Tip
-				ru := s.RevertTip()
+				var ru consensus.RevertUpdate
+				if pr, pmsg := fw.Recover(func() { ru = s.RevertTip() }); pr {
+					// RevertBlock itself, or a client following its update (the store refreshes its proofs with it), panicked
+					res.Violate(fw.Violation{Key: "c06-revert-panic:" + rec.corner, What: "reverting an applied block (RevertBlock, or a store refreshing its proofs with the revert update) panicked: " + pmsg, Replay: rp})
+					return false
+				}
 				if c.Model != nil && rec.modelReq != "" {
 					ops = append(ops, "ledger-revert "+rec.modelReq)
 					outs = append(outs, "ok "+ab.DumpRevert(ru, tipBefore, s.Tip))
@@ -235,7 +240,12 @@ func runC06(c *fw.Ctx) {
 				height := s.Height()
 				rp := map[string]any{"mode": mode, "seed": seed, "height": height, "schedule_step": st, "corner": rec.corner}
 				tipBefore := s.Tip
-				ru := s.RevertTip()
+				var ru consensus.RevertUpdate
+				if pr, pmsg := fw.Recover(func() { ru = s.RevertTip() }); pr {
+					res.Violate(fw.Violation{Key: "c06-revert-panic:" + rec.corner, What: "reverting an applied block (RevertBlock, or a store refreshing its proofs with the revert update) panicked: " + pmsg, Replay: rp})
+					ok = false
+					break
+				}
 				if c.Model != nil && rec.modelReq != "" {
 					ops = append(ops, "ledger-revert "+rec.modelReq)
 					outs = append(outs, "ok "+ab.DumpRevert(ru, tipBefore, s.Tip))
